@@ -370,7 +370,6 @@ func (p *Prog) Implementations(m *types.Func) []*ssa.Function {
 	return out
 }
 
-
 // sentinels: package-level variables that hold a non-nil value for the whole run: every store to them is in a package
 // initialiser and stores a freshly made value (var ErrX = errors.New(...)).
 var sentinels = map[*ssa.Global]bool{}
